@@ -167,7 +167,9 @@ static int encode_special_opd(struct instr *instrc, int m, int i) {
     if (instrc->opd[m].index & REG_RB)
       instrc->hex.rex |= rex_ + rex_x;
     FAIL_IF(get_reg(instrc, &instrc->opd[m], reg_r));
-    instrc->rd_offset = (instrc->opd[m].reg & VALUE_MASK);
+    // with a SIB byte the r/m field is 0b100, not the base register
+    instrc->rd_offset =
+        instrc->is_sib ? spl : (instrc->opd[m].reg & VALUE_MASK);
     if (instrc->mem_disp)
       instrc->rd_offset |= instrc->mod_disp;
     break;
